@@ -475,6 +475,18 @@ impl Iter {
                     plan.push(Inj { func: raw.n_imp_funcs + f as u32, at, mode, path: Path::Iter, uid, n_ops: 1, leading_drop: false, probe: lower::Probe::Marker });
                     uid += 1;
                     any_inj = true;
+                    // 1 in 6: an ordinary injection is withdrawn again through clear_instr_at with the saved location (the component
+                    // iterator stands in ANOTHER module at that moment, if there is one)
+                    let clear = match mode {
+                        Mode::Before => Some(Mode::ClearBefore),
+                        Mode::After => Some(Mode::ClearAfter),
+                        Mode::Alt | Mode::EmptyAlt => Some(Mode::ClearAlt),
+                        _ => None,
+                    };
+                    if let (Some(cm), true) = (clear, rng.chance(1, 6)) {
+                        plan.push(Inj { func: raw.n_imp_funcs + f as u32, at, mode: cm, path: Path::Iter, uid, n_ops: 1, leading_drop: false, probe: lower::Probe::Marker });
+                        uid += 1;
+                    }
                 }
                 plan.sort_by_key(|i| matches!(i.mode, Mode::FuncEntry | Mode::FuncExit));
             }
@@ -488,6 +500,22 @@ impl Iter {
                 for (k, plan) in plans2.iter().enumerate() {
                     for inj in plan {
                         let mut it = ComponentIterator::new(&mut c, HashMap::new());
+                        if let Some(what) = inj.mode.clears() {
+                            use wirm::opcode::Instrumenter;
+                            // stand in another module (the first location of the traversal that is not in module k), then clear by location
+                            loop {
+                                if let (Location::Component { mod_idx, .. }, _) = it.curr_loc() {
+                                    if *mod_idx != k as u32 {
+                                        break;
+                                    }
+                                }
+                                if it.next().is_none() {
+                                    break;
+                                }
+                            }
+                            it.clear_instr_at(Location::Component { mod_idx: wirm::ir::id::ModuleID(k as u32), func_idx: FunctionID(inj.func), instr_idx: inj.at }, what);
+                            continue;
+                        }
                         loop {
                             if let (Location::Component { mod_idx, func_idx, instr_idx }, _) = it.curr_loc() {
                                 if *mod_idx == k as u32 && *func_idx == inj.func && instr_idx == inj.at {
